@@ -51,6 +51,27 @@ func prop(t *rapid.T) {
 	if len(pm.Routes) == 0 {
 		t.Skip("no routes")
 	}
+	// some handlers issue a nested request: they call ServeHTTP of the same router for an internal sub-request and
+	// go on afterwards. Each request, nested or not, must run exactly its own chain.
+	nsub := 0
+	if rapid.IntRange(0, 2).Draw(t, "nestedRequests") == 0 {
+		pool := chain.Requests(t, pm, 2)
+		all := prog.AllScripts()
+		for i, k := 0, rapid.IntRange(1, 3).Draw(t, "nsub"); i < k && len(pool) > 0 && len(all) > 0; i++ {
+			q := pool[rapid.IntRange(0, len(pool)-1).Draw(t, "subReq")]
+			if c, _, _ := pm.Expect(q[0], q[1]); len(c) > 40 {
+				continue
+			}
+			sc := all[rapid.IntRange(0, len(all)-1).Draw(t, "subIn")]
+			at := rapid.IntRange(0, len(sc.Ops)).Draw(t, "subAt")
+			sc.Ops = append(append(append([]chain.Op{}, sc.Ops[:at]...), chain.Op{K: chain.OpSub, S: q[0], S2: q[1]}), sc.Ops[at:]...)
+			nsub++
+		}
+		if nsub > 0 {
+			w.Subs = true
+			pm.EnableSub()
+		}
+	}
 	r := prog.Apply(w)
 	// structural: path and middleware count of every registered route
 	for _, rt := range pm.Routes {
@@ -102,6 +123,9 @@ func prop(t *rapid.T) {
 		}
 		if len(info.Chain) == 63 {
 			ev.Excluded("K1:IsAborted-not-observed-for-chain-of-63")
+		}
+		if nsub > 0 {
+			ev.Class("program-with-nested-requests")
 		}
 		if (len(info.Chain) >= 3 && levels(ns) >= 2) || odd || lateGlobal {
 			if odd {
